@@ -104,6 +104,7 @@ fn run_typed(out: &mut Out, method: u16, class: u8, txid: &[u8; 12], buflen: usi
 fn gen_typed(rng: &mut Rng, round: u64, txid: &[u8; 12]) -> Vec<String> {
     let structured: Vec<usize> = (0..38).filter(|k| matches!(av::KINDS[*k].0, 0x8002 | 0x001D | 0x0009 | 0x8001 | 0x000A | 0x0001 | 0x0020 | 0x8004 | 0x0006 | 0x0014)).collect();
     let mut specs = vec![];
+    *av::TXID_HINT.lock().unwrap() = *txid;
     for _ in 0..rng.range(1, 4) {
         let k = if rng.chance(2, 3) { *rng.pick(&structured) } else { rng.below(38) as usize };
         let (ty, fam) = av::KINDS[k];
